@@ -116,6 +116,41 @@ def case_circle(case):
     return {"v": v[:5], "nt": 360, "n": 360, "obs": {"worst_bearing_error_deg": round(worst, 2), "directions": 360}}
 
 
+def case_origin_tower(case):
+    """a tower standing exactly ON the reference origin (its lat/lon ARE ref_lat/ref_lon, local position (0, 0), the
+    south-west corner of the domain) with the wind from the north-east quadrant, whose upwind side lies inside the domain:
+    centre of mass of the whole returned footprint, bearings 25..65 degrees (clean tree: within 2.1 degrees)"""
+    from bldfm.config_parser import parse_config_dict
+    from bldfm.interface import run_bldfm_single
+
+    rlat, rlon = ORIGINS[case["origin"]]
+    v = []
+    worst = 0.0
+    n = 0
+    for wd in range(25, 66, 5):
+        cfg = parse_config_dict({
+            "domain": {"nx": 32, "ny": 32, "xmax": 400.0, "ymax": 400.0, "nz": 8, "modes": [32, 32], "ref_lat": rlat, "ref_lon": rlon},
+            "towers": [{"name": "mast", "lat": rlat, "lon": rlon, "z_m": 5.0}],
+            "met": {"ustar": 0.4, "mol": case["mol"], "wind_speed": 4.0, "wind_dir": float(wd)},
+            "solver": {"closure": case["closure"], "footprint": True, "precision": "double"},
+        })
+        r = run_bldfm_single(cfg, cfg.towers[0])
+        n += 1
+        X, Y = np.asarray(r["grid"][0]), np.asarray(r["grid"][1])
+        f = np.asarray(r["flx"], dtype=float)
+        tx, ty = r["tower_xy"]
+        if abs(tx) > 1e-6 or abs(ty) > 1e-6:
+            v.append({"sub": "tower-position", "sig": "tower-position/origin", "msg": "a tower at the reference origin %s is reported at (%r, %r)" % ((rlat, rlon), tx, ty)})
+            break
+        cx, cy = (f * (X - tx)).sum(), (f * (Y - ty)).sum()
+        b = math.degrees(math.atan2(cx, cy)) % 360
+        e = abs((b - wd + 180) % 360 - 180)
+        worst = max(worst, e)
+        if not e <= TOL_DEG:
+            v.append({"sub": "bearing", "sig": "bearing/origin-tower", "msg": "tower ON the reference origin, wind_dir=%d: footprint centre of mass lies at bearing %.1f from the tower (error %.1f deg > %g, %.0f %% of the weight inside the domain); case %s" % (wd, b, e, TOL_DEG, 100 * f.sum(), core.canon(case))})
+    return {"v": v[:3], "nt": n, "n": n, "obs": {"worst_bearing_error_deg": round(worst, 2)}}
+
+
 def _bearing_error(r, xmax, ymax, wd):
     X, Y = np.asarray(r["grid"][0]), np.asarray(r["grid"][1])
     f = np.asarray(r["flx"], dtype=float)
@@ -256,6 +291,8 @@ def run(ctx):
     res += ctx.run_cases(case_series, sc, sub="series-drivers", chunksize=1)
     res += ctx.run_cases(case_routes, [{"origin": o, "route": rt, "driver": d, "start": st} for (o, st), rt, d in itertools.product((("NE", 10), ("SW", 25)), ("dataclasses-own-tower", "after-rejected-replace"), ("single", "timeseries"))],
                          sub="configuration from dataclasses / after a rejected construction", chunksize=1)
+    res += ctx.run_cases(case_origin_tower, [{"origin": o, "closure": c, "mol": L} for o, (c, L) in itertools.product(("NE", "SW", "null-island"), (("MOST", -100.0), ("MOSTM", 50.0), ("CONSTANT", 1e9)))],
+                         sub="tower exactly on the reference origin (domain corner), wind from the quadrant inside the domain", chunksize=1)
     core.run_forked(ctx, case_cache_race, [{"dirs": [20, 200]}], sub="two sessions sharing the cache directory (all interleavings, <= 2 preemptions)", nproc=4, timeout=1800)
     ctx.cov["worst_bearing_error_deg"] = max([r.get("obs", {}).get("worst_bearing_error_deg", 0) for r in res] + [0])
     bigcases.run(ctx, "C08")
